@@ -5,12 +5,12 @@ from .. import dump, evalcorr, evalprop, gen_data
 
 PID = "C06"
 MANIFEST = {
-    "text": "The model carries, as explicit panic outcomes, the panic sites transcribed from the Rust code (slice index, unwrap, as_conscell, unchecked arithmetic), and the theorems show site by site that no input reaches them: the reader and the native read for every text, source and start position (negative, zero, huge); the arithmetic natives as generated from the source on every pair of i64, in either build profile; evaluation beyond the depth limit is a signal for every expression; variable lookup is total on any value used as environment, exact on association lists, and parameter binding and trap handling only ever extend an association list by (symbol . value) pairs (all parameter lists, argument lists, rest parameters); send is total on every list. Tied to the code by the shared differential checks of the evaluator and reader models, and decided on the binary (debug and release profile, in-process panic capture and process exit status) by a type-shaped enumeration: every primitive applied to every combination of argument shapes (all types, boundary integers, improper, odd, long, deep and shared structures, hand-made functions, traps and environments) at every arity from 0 to one more than declared, plus malformed texts for read and deep/long data through print, =, eval, macroexpand and the command-line front end.",
+    "text": "The model carries, as explicit panic outcomes, the panic sites transcribed from the Rust code (slice index, unwrap, as_conscell, unchecked arithmetic), and the theorems show that no input reaches them. The main theorem is evaluator-wide: for EVERY expression, environment, module, depth, amount of fuel and every state whose current module exists, neither the evaluator loop nor the expander nor eval / macroexpand / call-native-function / load-all ends in a panic site (mutual induction over the six functions; the only residue, named in the statement, is where the model itself gives up: file-system access and native-function values that name no table entry, which the interpreter cannot construct); it rests on: every primitive of the GENERATED table on every argument list that passes its generated signature; no module ever disappears and the current module always exists (so load-all's unwrap cannot fail); what read returns is a property list. Site by site: the reader and the native read for every text, source and start position (negative, zero, huge); the arithmetic natives as generated from the source on every pair of i64, in either build profile; evaluation beyond the depth limit is a signal for every expression; variable lookup is total on any value used as environment, exact on association lists, and parameter binding and trap handling only ever extend an association list by (symbol . value) pairs (all parameter lists, argument lists, rest parameters); send is total on every list. Tied to the code by the shared differential checks of the evaluator and reader models, and decided on the binary (debug and release profile, in-process panic capture and process exit status) by a type-shaped enumeration: every primitive applied to every combination of argument shapes (all types, boundary integers, improper, odd, long, deep and shared structures, hand-made functions, traps and environments) at every arity from 0 to one more than declared, plus malformed texts for read and deep/long data through print, =, eval, macroexpand and the command-line front end.",
     "note": "Partial: exhaustion of the native stack by uncounted recursion and panics inside the Rust standard library are runtime behaviour the model cannot exhibit; that part is decided by the enumeration on the binary (testing, not proof). Trusted: Coq kernel; transcription of panic sites (hand-written, bound by the correspondence: the model panics exactly where the binary does on the enumerated cases).",
     "technique": "Coq theorems about the transcribed panic sites (reachability guards, refutation witnesses) + exhaustive type-shaped enumeration of primitives x argument shapes on the binary in both build profiles + model/binary agreement on panics",
 }
 TARGETS = ["Properties/C06.v", "Eval/PreludeState.v"]
-IMPORTS = ["Data.ReaderProofs", "Data.ArithProofs", "Eval.Eval", "Eval.EvalRules", "Eval.SemProofs", "Eval.TotalityProofs", "Properties.C06"]
+IMPORTS = ["Data.ReaderProofs", "Data.ArithProofs", "Eval.Eval", "Eval.EvalRules", "Eval.SemProofs", "Eval.TotalityProofs", "Eval.NativesTotal", "Eval.ModulesPersist", "Eval.EvalTotal", "Properties.C06"]
 THEOREMS = [
     ("C06_reader_total", "forall src inp inv line col, rd_not_panic (read_text src inp inv line col)"),
     ("C06_arithmetic_total", "forall n x y a, in_i64 x = true -> in_i64 y = true -> impl_of n = Some a -> arith_eval a x y <> APanic /\\ forall w, arith_eval a x y <> APanicOrWrap w"),
@@ -22,6 +22,10 @@ THEOREMS = [
     ("C06_send_total", 'forall st data d l, list_to_vec data = Some l -> exists r, simple_native st (s "send") [data] d = Some (st, r) /\\ forall site, r <> RPanic site'),
     ("C06_send_odd_is_a_signal", 'forall st d, simple_native st (s "send") [VCons (vsym "a") VNil] d = Some (st, RSig (make_error "invalid-plist" (s "send") [("symbol", vsym "data")]))'),
     ("C06_read_total", "forall input source line col site, read_result input source line col <> RPanic site"),
+    ("C06_no_primitive_panics", "forall st name info sig args d st' site, find_native name native_table = Some info -> n_sig info = Some sig -> validate name sig args = None -> simple_native st name args d = Some (st', RPanic site) -> model_limit site"),
+    ("C06_evaluator_never_panics", "forall fuel, (forall st e env m d st' site, cur_ok st -> eval_internal fuel st e env m d = (st', RPanic site) -> residual site) /\\ (forall st e env m d st' site, cur_ok st -> eval_loop fuel st e env m d = (st', RPanic site) -> residual site) /\\ (forall st e env m d ch st' site ch', cur_ok st -> expand_internal fuel st e env m d ch = (st', RPanic site, ch') -> residual site) /\\ (forall st e env m d st' site, cur_ok st -> expand_completely fuel st e env m d = (st', RPanic site) -> residual site) /\\ (forall st name args env d st' site, cur_ok st -> call_native fuel st name args env d = (st', RPanic site) -> residual site) /\\ (forall st cursor source line col d st' site, cur_ok st -> load_loop fuel st cursor source line col d = (st', RPanic site) -> residual site)"),
+    ("C06_modules_persist", "forall fuel st name args env d st' r, call_native fuel st name args env d = (st', r) -> keeps st st'"),
+    ("C06_residual_is", 'forall site, residual site <-> (site = "model: file system access is not modelled" \\/ site = "model: native function value without a table entry") \\/ site = "model: unknown native"'),
 ]
 
 # argument shapes (Lisp expressions); the big ones are bound by a lambda around the call (define would
